@@ -9,6 +9,7 @@
 #include <sys/syscall.h>
 #include <unistd.h>
 #include <stdarg.h>
+#include <sys/prctl.h>
 
 struct Rec { long nr; std::vector<unsigned char> mask; int mode; };
 static bool g_record = true; static std::vector<Rec> g_calls; static std::vector<unsigned char> g_lastcpumask;
@@ -58,25 +59,42 @@ static hwloc_bitmap_t shape_set(Draw &d, hwloc_const_bitmap_t topo, hwloc_const_
 static hwloc_bitmap_t dirty_bitmap(Draw &d) { hwloc_bitmap_t b = hwloc_bitmap_alloc(); int m = d.range(0, 3); if (m == 1) hwloc_bitmap_fill(b); else if (m == 2) { hwloc_bitmap_set_range(b, 0, 70); hwloc_bitmap_set(b, 200); } else if (m == 3) hwloc_bitmap_set_range(b, d.range(0, 40), -1); return b; }
 static const char *shape_name[] = {"subset", "topology", "complete", "empty", "outside-complete", "infinite", "full", "all-but-last"};
 
+// a second thread that binds itself to one PU and sleeps until told to leave (live part: process-wide views, x86 save/restore of the loader's binding)
+struct Helper { pthread_t th; int pu; volatile int ready, leave; };
+static void *helper_main(void *arg) { Helper *h = (Helper *)arg; cpu_set_t m; CPU_ZERO(&m); CPU_SET(h->pu, &m); real_syscall()(SYS_sched_setaffinity, 0L, (long)sizeof m, &m); prctl(PR_SET_NAME, "helper) x", 0, 0, 0); h->ready = 1; while (!h->leave) usleep(500); return NULL; }
+
 static void live_part(Case &c, Draw &d) {
   g_record = false; cpu_set_t orig; CPU_ZERO(&orig); CHECK(c, real_syscall()(SYS_sched_getaffinity, 0L, (long)sizeof orig, &orig) > 0, "harness_live", "cannot read the current affinity");
+  std::vector<int> opus; for (int i = 0; i < CPU_SETSIZE; i++) if (CPU_ISSET(i, &orig)) opus.push_back(i);
+  // the caller may already be bound to a subset, may have a thread bound elsewhere, and its threads may have unusual names
+  Helper hp; hp.pu = -1; hp.ready = hp.leave = 0; bool helper = opus.size() >= 2 && d.chance(1, 2);
+  cpu_set_t pre = orig; if (opus.size() >= 2 && d.chance(1, 2)) { CPU_ZERO(&pre); for (int pu : opus) if (d.chance(1, 3)) CPU_SET(pu, &pre); if (!CPU_COUNT(&pre)) CPU_SET(opus[d.raw() % opus.size()], &pre); }
+  if (helper) { std::vector<int> cand; for (int pu : opus) if (!CPU_ISSET(pu, &pre) || CPU_COUNT(&pre) == (int)opus.size()) cand.push_back(pu); if (cand.empty()) cand = opus; hp.pu = cand[d.raw() % cand.size()]; CHECK(c, pthread_create(&hp.th, NULL, helper_main, &hp) == 0, "harness_live", "pthread_create failed"); while (!hp.ready) usleep(200); }
+  real_syscall()(SYS_sched_setaffinity, 0L, (long)sizeof pre, &pre);
+  static const char *names[] = {NULL, "plain", "w(1) x", "a) b) c", ") ", "((x", "sp ace"}; const char *tname = d.pick(names); if (tname) prctl(PR_SET_NAME, tname, 0, 0, 0);
   bool nox86 = d.chance(1, 2); if (nox86) setenv("HWLOC_COMPONENTS", "-x86", 1); else unsetenv("HWLOC_COMPONENTS");
-  hwloc_topology_t t; hwloc_topology_init(&t); unsigned long fl = d.chance(1, 3) ? HWLOC_TOPOLOGY_FLAG_INCLUDE_DISALLOWED : 0; hwloc_topology_set_flags(t, fl); g_calls.clear();
+  hwloc_topology_t t; hwloc_topology_init(&t); unsigned long fl = 0; int fk = d.range(0, 3); if (fk == 1) fl = HWLOC_TOPOLOGY_FLAG_INCLUDE_DISALLOWED; else if (fk == 2) fl = HWLOC_TOPOLOGY_FLAG_IS_THISSYSTEM | HWLOC_TOPOLOGY_FLAG_RESTRICT_TO_CPUBINDING; else if (fk == 3) fl = HWLOC_TOPOLOGY_FLAG_IS_THISSYSTEM | HWLOC_TOPOLOGY_FLAG_THISSYSTEM_ALLOWED_RESOURCES;
+  CHECK(c, hwloc_topology_set_flags(t, fl) == 0, "harness_live", "flags 0x%lx rejected", fl); g_calls.clear();
+  c.descf("live: native topology %s x86, flags 0x%lx, caller bound to %d of %zu PUs%s, thread name %s", nox86 ? "without" : "with", fl, CPU_COUNT(&pre), opus.size(), helper ? strf(", a second thread bound to PU %d", hp.pu).c_str() : "", tname ? qstr(tname).c_str() : "(unchanged)");
   c.attempt("native hwloc_topology_load"); CHECK(c, hwloc_topology_load(t) == 0, "live_load", "native load failed");
   cpu_set_t after; CPU_ZERO(&after); real_syscall()(SYS_sched_getaffinity, 0L, (long)sizeof after, &after);
-  CHECK(c, CPU_EQUAL(&orig, &after), "load_keeps_binding", "hwloc_topology_load() (%s x86 backend) changed the caller's binding", nox86 ? "without" : "with");
-  require_wf(c, t, "native topology"); c.descf("live: native topology %s x86, flags 0x%lx, %d PUs", nox86 ? "without" : "with", fl, hwloc_get_nbobjs_by_type(t, HWLOC_OBJ_PU));
+  CHECK(c, CPU_EQUAL(&pre, &after), "load_keeps_binding", "hwloc_topology_load() (%s x86 backend, flags 0x%lx%s) changed the caller's binding: %d PUs before, %d after", nox86 ? "without" : "with", fl, helper ? ", second thread bound elsewhere" : "", CPU_COUNT(&pre), CPU_COUNT(&after));
+  require_wf(c, t, "native topology");
   hwloc_const_bitmap_t allowed = hwloc_topology_get_allowed_cpuset(t); hwloc_bitmap_t cur = hwloc_bitmap_alloc(); CHECK(c, hwloc_get_cpubind(t, cur, HWLOC_CPUBIND_THREAD) == 0, "live_get", "get_cpubind failed errno %d", errno);
   for (int k = 0; k < 6; k++) { hwloc_bitmap_t s = hwloc_bitmap_alloc(); int f; hwloc_bitmap_foreach_begin(f, allowed) { if (hwloc_bitmap_isset(cur, f) && d.chance(1, 2)) hwloc_bitmap_set(s, f); } hwloc_bitmap_foreach_end(); if (hwloc_bitmap_iszero(s)) hwloc_bitmap_set(s, hwloc_bitmap_first(cur));
     int r = hwloc_set_cpubind(t, s, HWLOC_CPUBIND_THREAD); CHECK(c, r == 0, "live_set", "set_cpubind(THREAD, %s) failed errno %d", bstr(s).c_str(), errno);
     hwloc_bitmap_t g = dirty_bitmap(d); CHECK(c, hwloc_get_cpubind(t, g, HWLOC_CPUBIND_THREAD) == 0 && hwloc_bitmap_isequal(g, s), "live_roundtrip", "bound the thread to %s, read back %s", bstr(s).c_str(), bstr(g).c_str());
-    // this child has a single thread, so the process-wide views equal the thread's; output bitmaps are dirty on purpose
-    { static const int pf[] = {0, HWLOC_CPUBIND_PROCESS, HWLOC_CPUBIND_THREAD, HWLOC_CPUBIND_PROCESS | HWLOC_CPUBIND_STRICT}; for (int f2 : pf) { hwloc_bitmap_t g2 = dirty_bitmap(d); int r2 = hwloc_get_cpubind(t, g2, f2); CHECK(c, r2 == 0 && hwloc_bitmap_isequal(g2, s), "live_roundtrip", "bound the only thread to %s, get_cpubind(flags 0x%x) into a non-empty bitmap returned %d with %s", bstr(s).c_str(), f2, r2, bstr(g2).c_str()); hwloc_bitmap_free(g2); }
-      hwloc_bitmap_t g3 = dirty_bitmap(d); int r3 = hwloc_get_proc_cpubind(t, getpid(), g3, 0); CHECK(c, r3 == 0 && hwloc_bitmap_isequal(g3, s), "live_roundtrip", "get_proc_cpubind(self) returned %d with %s, the thread is bound to %s", r3, bstr(g3).c_str(), bstr(s).c_str()); hwloc_bitmap_free(g3);
+    // the process-wide views are the union over the threads: this thread's set, plus the second thread's PU when there is one; output bitmaps are dirty on purpose
+    hwloc_bitmap_t procset = hwloc_bitmap_dup(s); if (helper) hwloc_bitmap_set(procset, hp.pu);
+    { static const int pf[] = {0, HWLOC_CPUBIND_PROCESS, HWLOC_CPUBIND_THREAD, HWLOC_CPUBIND_PROCESS | HWLOC_CPUBIND_STRICT}; for (int f2 : pf) { if ((f2 & HWLOC_CPUBIND_STRICT) && helper) continue; hwloc_bitmap_t g2 = dirty_bitmap(d); int r2 = hwloc_get_cpubind(t, g2, f2); hwloc_const_bitmap_t e2 = f2 == HWLOC_CPUBIND_THREAD ? s : procset; CHECK(c, r2 == 0 && hwloc_bitmap_isequal(g2, e2), "live_roundtrip", "thread bound to %s%s, get_cpubind(flags 0x%x) into a non-empty bitmap returned %d with %s, expected %s", bstr(s).c_str(), helper ? " (second thread elsewhere)" : "", f2, r2, bstr(g2).c_str(), bstr(e2).c_str()); hwloc_bitmap_free(g2); }
+      hwloc_bitmap_t g3 = dirty_bitmap(d); int r3 = hwloc_get_proc_cpubind(t, getpid(), g3, 0); CHECK(c, r3 == 0 && hwloc_bitmap_isequal(g3, procset), "live_roundtrip", "get_proc_cpubind(self) returned %d with %s, expected %s", r3, bstr(g3).c_str(), bstr(procset).c_str()); hwloc_bitmap_free(g3);
       hwloc_bitmap_t g4 = dirty_bitmap(d); int r4 = hwloc_get_thread_cpubind(t, pthread_self(), g4, 0); CHECK(c, r4 == 0 && hwloc_bitmap_isequal(g4, s), "live_roundtrip", "get_thread_cpubind(self) returned %d with %s, the thread is bound to %s", r4, bstr(g4).c_str(), bstr(s).c_str()); hwloc_bitmap_free(g4);
-      if (k & 1) { int r5 = hwloc_set_cpubind(t, s, HWLOC_CPUBIND_PROCESS); hwloc_bitmap_t g5 = dirty_bitmap(d); CHECK(c, r5 == 0 && hwloc_get_cpubind(t, g5, HWLOC_CPUBIND_THREAD) == 0 && hwloc_bitmap_isequal(g5, s), "live_roundtrip", "set_cpubind(PROCESS, %s) returned %d, the thread then reads %s", bstr(s).c_str(), r5, bstr(g5).c_str()); hwloc_bitmap_free(g5); } }
-    hwloc_bitmap_t loc = dirty_bitmap(d); if (hwloc_get_last_cpu_location(t, loc, HWLOC_CPUBIND_THREAD) == 0) CHECK(c, hwloc_bitmap_isincluded(loc, s) && !hwloc_bitmap_iszero(loc), "live_last_location", "last cpu location %s is not inside the binding %s", bstr(loc).c_str(), bstr(s).c_str());
-    hwloc_bitmap_free(g); hwloc_bitmap_free(loc); hwloc_bitmap_free(s); c.cls("live:roundtrip"); }
+      if ((k & 1) && !helper) { int r5 = hwloc_set_cpubind(t, s, HWLOC_CPUBIND_PROCESS); hwloc_bitmap_t g5 = dirty_bitmap(d); CHECK(c, r5 == 0 && hwloc_get_cpubind(t, g5, HWLOC_CPUBIND_THREAD) == 0 && hwloc_bitmap_isequal(g5, s), "live_roundtrip", "set_cpubind(PROCESS, %s) returned %d, the thread then reads %s", bstr(s).c_str(), r5, bstr(g5).c_str()); hwloc_bitmap_free(g5); } }
+    // where the thread (resp. the process) last ran lies inside its binding, whatever the threads are called
+    { static const int lf[] = {HWLOC_CPUBIND_THREAD, 0, HWLOC_CPUBIND_PROCESS}; for (int f3 : lf) { hwloc_bitmap_t loc = dirty_bitmap(d); if (hwloc_get_last_cpu_location(t, loc, f3) == 0) { hwloc_const_bitmap_t e3 = f3 == HWLOC_CPUBIND_THREAD ? s : procset; CHECK(c, hwloc_bitmap_isincluded(loc, e3) && !hwloc_bitmap_iszero(loc), "live_last_location", "last cpu location %s (flags 0x%x, thread name %s) is not inside the binding %s", bstr(loc).c_str(), f3, tname ? tname : "(unchanged)", bstr(e3).c_str()); } hwloc_bitmap_free(loc); }
+      hwloc_bitmap_t loc = dirty_bitmap(d); if (hwloc_get_proc_last_cpu_location(t, getpid(), loc, 0) == 0) CHECK(c, hwloc_bitmap_isincluded(loc, procset) && !hwloc_bitmap_iszero(loc), "live_last_location", "get_proc_last_cpu_location(self) = %s (thread name %s) is not inside the binding %s", bstr(loc).c_str(), tname ? tname : "(unchanged)", bstr(procset).c_str()); hwloc_bitmap_free(loc); }
+    hwloc_bitmap_free(procset); hwloc_bitmap_free(g); hwloc_bitmap_free(s); c.cls("live:roundtrip"); }
+  if (helper) { hp.leave = 1; pthread_join(hp.th, NULL); c.cls("live:second-thread"); } if (tname) c.cls("live:renamed-thread"); if (CPU_COUNT(&pre) != (int)opus.size()) c.cls("live:caller-already-bound");
   real_syscall()(SYS_sched_setaffinity, 0L, (long)sizeof orig, &orig); hwloc_bitmap_free(cur); hwloc_topology_destroy(t); g_record = true; c.nontrivial();
 }
 
